@@ -77,7 +77,9 @@ func uniq(ss []string) (out []string) {
 
 // checkFieldMap checks that fn stores into each listed field of targetType a
 // value whose access path ends with the given suffix (writer/reader agreement
-// of conversions).
+// of conversions).  The check is made per constructed object: when fn builds
+// several values of targetType (one per protocol, say), each of them must set
+// every listed field.
 func checkFieldMap(c *an.Ctx, rule, fnKey, targetType string, want map[string]string) {
 	fn := c.Fn(fnKey)
 	if fn == nil {
@@ -85,15 +87,26 @@ func checkFieldMap(c *an.Ctx, rule, fnKey, targetType string, want map[string]st
 		return
 	}
 	c.Analysed(fnKey)
-	got := map[string][]string{}
+	type obj struct {
+		pos token.Pos
+		got map[string][]string
+	}
+	objs := map[ssa.Value]*obj{}
+	var order []ssa.Value
 	an.Instrs(fn, func(in ssa.Instruction) {
 		st, ok := in.(*ssa.Store)
 		if !ok {
 			return
 		}
-		typ, field, _, ok := an.FieldOf(st.Addr)
+		typ, field, base, ok := an.FieldOf(st.Addr)
 		if !ok || typ != targetType {
 			return
+		}
+		o := objs[base]
+		if o == nil {
+			o = &obj{pos: st.Pos(), got: map[string][]string{}}
+			objs[base] = o
+			order = append(order, base)
 		}
 		v := st.Val
 		for {
@@ -113,9 +126,9 @@ func checkFieldMap(c *an.Ctx, rule, fnKey, targetType string, want map[string]st
 			break
 		}
 		if ap, ok := an.AccessPath(v); ok {
-			got[field] = append(got[field], ap)
+			o.got[field] = append(o.got[field], ap)
 		} else {
-			got[field] = append(got[field], "?"+v.Name())
+			o.got[field] = append(o.got[field], "?"+v.Name())
 		}
 	})
 	var names []string
@@ -123,22 +136,34 @@ func checkFieldMap(c *an.Ctx, rule, fnKey, targetType string, want map[string]st
 		names = append(names, f)
 	}
 	sort.Strings(names)
+	if len(order) == 0 {
+		for _, f := range names {
+			c.Bad(rule, fmt.Sprintf("%s %s.%s", fnKey, targetType, f), fn.Pos(), "the conversion never sets this field")
+		}
+		return
+	}
 	for _, f := range names {
 		key := fmt.Sprintf("%s %s.%s", fnKey, targetType, f)
-		gs, ok := got[f]
-		wrong := ""
-		for _, g := range gs {
-			if !strings.HasSuffix(g, want[f]) {
-				wrong = g
+		var all []string
+		problem := ""
+		for _, b := range order {
+			o := objs[b]
+			gs, ok := o.got[f]
+			if !ok {
+				problem = fmt.Sprintf("the %s built at %s never sets this field: the setting is silently zero for what that object configures", targetType, c.Pos(o.pos))
+				continue
+			}
+			for _, g := range gs {
+				all = append(all, g)
+				if !strings.HasSuffix(g, want[f]) {
+					problem = fmt.Sprintf("the field is set from %s instead of …%s: a setting of another kind or address family takes effect here", g, want[f])
+				}
 			}
 		}
-		switch {
-		case !ok:
-			c.Bad(rule, key, fn.Pos(), "the conversion never sets this field")
-		case wrong != "":
-			c.Bad(rule, key, fn.Pos(), "the field is set from %s instead of …%s: a setting of another kind or address family takes effect here", wrong, want[f])
-		default:
-			c.Ok(rule, key, fn.Pos(), "set from %s", strings.Join(gs, ", "))
+		if problem != "" {
+			c.Bad(rule, key, fn.Pos(), "%s", problem)
+		} else {
+			c.Ok(rule, key, fn.Pos(), "set from %s in each of the %d objects built", strings.Join(uniq(all), ", "), len(order))
 		}
 	}
 }
